@@ -349,7 +349,17 @@ pub fn run_adversarial(cfg: &Value) -> Value {
             gen_ids = json!({"h": env::point_id(&pc_gens.h_base), "g": pc_gens.g_base_vec.iter().map(env::point_id).collect::<Vec<_>>()});
         }
         let params = RangeParameters::init(sn, cap, pc_gens).expect("params");
-        let commitments: Vec<RistrettoPoint> = (0..m).map(|j| env::free_point(&format!("V_{}_{}", i, j))).collect();
+        #[allow(unused_mut)]
+        let mut commitments: Vec<RistrettoPoint> = (0..m).map(|j| env::free_point(&format!("V_{}_{}", i, j))).collect();
+        // equal commitments inside one aggregate (the same output listed twice): positions [a, b] => commitment b IS commitment a
+        if let Some(d) = mc["dup_commitments"].as_array() {
+            for pr in d {
+                let (a, b) = (pr[0].as_u64().unwrap_or(0) as usize, pr[1].as_u64().unwrap_or(0) as usize);
+                if a < m && b < m {
+                    commitments[b] = commitments[a];
+                }
+            }
+        }
         let mut promises = Vec::new();
         let mut pinfo = Vec::new();
         for j in 0..m {
